@@ -13,6 +13,7 @@ Proof.
   split; intros [A B]; split; nia.
 Qed.
 
+(** nearest-even is stable under a common factor *)
 Lemma is_rne_scale n d c m : 0 < c -> is_rne n d m -> is_rne (n * c) (d * c) m.
 Proof.
   intros Hc. unfold is_rne.
@@ -37,6 +38,7 @@ Proof.
     apply is_rne_scale; assumption.
 Qed.
 
+(** round_ne depends on the fraction only (common factor) *)
 Lemma round_ne_scale neg n d c : 0 <= n -> 0 < d -> 0 < c -> round_ne neg (n * c) (d * c) = round_ne neg n d.
 Proof.
   intros Hn Hd Hc. unfold round_ne.
@@ -61,6 +63,7 @@ Proof.
   destruct (inf_bits <=? round_pos n d); cbn [fst snd]; rewrite ?Z.add_0_l; reflexivity.
 Qed.
 
+(** values below 2^1000 round to a finite pattern *)
 Lemma round_pos_lt_inf n d : 0 < n -> 0 < d -> n < 2 ^ 1000 * d -> round_pos n d < inf_bits.
 Proof.
   intros Hn Hd Hlt.
@@ -113,26 +116,34 @@ Qed.
 (** * Patterns below the sign bit *)
 
 Lemma sign_bit_pos : 0 < sign_bit. Proof. reflexivity. Qed.
+(** the pattern of +Inf is below the sign bit *)
 Lemma inf_lt_sign : inf_bits < sign_bit. Proof. reflexivity. Qed.
 
+(** magnitude of a non-negative pattern *)
 Lemma f_abs_small b : 0 <= b < sign_bit -> f_abs b = b.
 Proof. intros. unfold f_abs. apply Z.mod_small; assumption. Qed.
+(** sign of a non-negative pattern *)
 Lemma f_neg_small b : 0 <= b < sign_bit -> f_neg b = false.
 Proof. intros. unfold f_neg. apply Z.leb_gt. lia. Qed.
+(** magnitude of a negative pattern *)
 Lemma f_abs_signed b : 0 <= b < sign_bit -> f_abs (sign_bit + b) = b.
 Proof.
   intros. unfold f_abs. replace (sign_bit + b) with (b + 1 * sign_bit) by lia.
   rewrite Z_mod_plus_full. apply Z.mod_small; assumption.
 Qed.
+(** sign of a negative pattern *)
 Lemma f_neg_signed b : 0 <= b < sign_bit -> f_neg (sign_bit + b) = true.
 Proof. intros. unfold f_neg. apply Z.leb_le. lia. Qed.
+(** negation sets the sign bit of a non-negative pattern *)
 Lemma f_opp_small b : 0 <= b < sign_bit -> f_opp b = sign_bit + b.
 Proof. intros. unfold f_opp. destruct (Z.leb_spec sign_bit b); lia. Qed.
 
 Definition sgn (neg : bool) : Z := if neg then sign_bit else 0.
 
+(** magnitude of sgn neg + b *)
 Lemma f_abs_sgn neg b : 0 <= b < sign_bit -> f_abs (sgn neg + b) = b.
 Proof. intros. destruct neg; cbn [sgn]; [apply f_abs_signed|rewrite Z.add_0_l; apply f_abs_small]; assumption. Qed.
+(** sign of sgn neg + b *)
 Lemma f_neg_sgn neg b : 0 <= b < sign_bit -> f_neg (sgn neg + b) = neg.
 Proof. intros. destruct neg; cbn [sgn]; [apply f_neg_signed|rewrite Z.add_0_l; apply f_neg_small]; assumption. Qed.
 
@@ -194,6 +205,7 @@ Proof.
   rewrite IH by lia. lia.
 Qed.
 
+(** membership in an integer range *)
 Lemma In_zrange n : forall lo k, lo <= k < lo + Z.of_nat n -> In k (zrange lo n).
 Proof.
   induction n as [|n IH]; intros lo k Hk; [lia|]. cbn [zrange].
@@ -212,12 +224,14 @@ Proof.
   split; [lia|]. split; [assumption|]. apply Z.pow_nonneg; lia.
 Qed.
 
+(** with correct tables, float64pow10[i] is the constant 1e<i> *)
 Lemma f64pow10_at_ok T i : tables_ok T -> 0 <= i <= 22 -> f64pow10_at T i = f_pow10 i.
 Proof.
   intros HT Hi. destruct (tables_ok_facts T HT) as [_ _ _ _ Hf _ _ _ _ _ _ _].
   unfold f64pow10_at. rewrite Hf, nth_zrange by lia. f_equal. lia.
 Qed.
 
+(** ival is monotone (non-strict form) *)
 Lemma ival_mono_le a b : 0 <= a -> a <= b -> ival a <= ival b.
 Proof.
   intros Ha Hab. destruct (Z.eq_dec a b) as [->|Hne]; [lia|].
@@ -234,9 +248,11 @@ Hypothesis Hm53 : 0 <= m < two52.
 
 Let f0 := fst (round_ne false m 1).
 
+(** float64(m) holds m exactly for m < 2^52 *)
 Lemma ex_f0 : holds f0 m.
 Proof. apply holds_int. unfold two53, two52 in *. lia. Qed.
 
+(** below 2^1000 the rounding does not overflow *)
 Lemma ex_fin n d : 0 <= n -> 0 < d -> n < 2 ^ 1000 * d ->
   round_ne neg n d = (fst (round_ne neg n d), false).
 Proof.
@@ -244,6 +260,7 @@ Proof.
   destruct (round_false_small n d Hn Hd Hlt) as (_ & Hs & _). rewrite Hs. reflexivity.
 Qed.
 
+(** m * 10^k stays below 2^1000 for k <= 37 *)
 Lemma ex_big k : 0 <= k <= 37 -> m * 10 ^ k < 2 ^ 1000 * 1.
 Proof.
   intros Hk. assert (10 ^ k <= 10 ^ 37) by (apply Z.pow_le_mono_r; lia).
@@ -279,6 +296,7 @@ Proof.
   remember (C * 2 ^ 1074) as CC. destruct neg; lia.
 Qed.
 
+(** the guard against the constant 1e15 *)
 Lemma guard_bound r :
   0 <= r < inf_bits ->
   f_lt f_1e15 (sgn neg + r) || f_lt (sgn neg + r) (f_opp f_1e15) = false ->
@@ -338,6 +356,7 @@ Proof.
   assert (two52 < 2 ^ 1000) by reflexivity. remember (2 ^ 1000) as W. nia.
 Qed.
 
+(** the integer case: float64(m) with the sign *)
 Lemma ex_int : round_ne neg m 1 = (sgn neg + f0, false).
 Proof.
   rewrite (round_ne_sign neg m 1). cbn [fst snd]. fold (sgn neg). fold f0.
@@ -346,6 +365,7 @@ Proof.
   rewrite Hs. reflexivity.
 Qed.
 
+(** the first two statements of atof64exact: conversion and sign *)
 Lemma ex_start : (if neg then f_opp (f_of_u64 m) else f_of_u64 m) = sgn neg + f0.
 Proof.
   unfold f_of_u64. fold f0. destruct ex_f0 as (Hr & _). pose proof inf_lt_sign.
